@@ -58,7 +58,8 @@ JudgeOp(un, ch, m, tag) ==
       ELSE (IF ch.st = "ok" THEN {tag \o ".checked_misses_overflow"} ELSE {}))
      \cup (IF fits THEN (IF un.st # "ok" THEN {tag \o ".unchecked_fails"} ELSE Consistent(un, m, tag \o ".unchecked"))
            ELSE {})
-     \cup (IF ch.st = "ok" /\ un.st = "ok" /\ ~(Eq(ch.l, un.l) /\ ch.neg = un.neg /\ ch.eq0 = un.eq0 /\ ch.lt0 = un.lt0)
+     \cup (IF ch.st = "ok" /\ un.st = "ok" /\ ~(Eq(ch.l, un.l) /\ (ch.neg /\ ~IsZero(ch.l)) = (un.neg /\ ~IsZero(un.l))
+                                                   /\ ch.eq0 = un.eq0 /\ ch.lt0 = un.lt0)
            THEN {tag \o ".checked_unchecked_disagree"} ELSE {})
 
 JudgeRow(r) ==
